@@ -3,3 +3,7 @@ add('C18', 'zipmc/E-PROD',
     'exhaustive enumeration of the full 2^32 input domain on the real code, against a bit-field / calendar reference model',
     'Every one of the 2^32 (date,time) words is packed/unpacked through the real DateTime code and compared with an independent bit-field model; constructor acceptance is decided over each argument\'s entire type range plus the 8^6 boundary product; calendar conversions are checked on every day 1979..2108 (quick: 2^20 to_time pairs, thorough: all 2^32). Exhaustive over the stated domains, so no input in them can violate the property.',
     'Trusted: the harness\'s own bit-field model and proleptic-Gregorian validity test; the `time` crate for calendar arithmetic on the oracle side of to_time comparisons.')
+add('C01', 'zipmc/E-PROD',
+    'bounded-exhaustive enumeration of writer programs on the real writer+reader; the program is the reference model',
+    'Every program in the stated finite space (length-1 full product over kind/content/name/method-level/large/perm/time classes; all 512 permission values; all 2^16 date words and all 2^16 time words; every documented method/level pair; all entry lists of length 2 and 3 (thorough 4) over reduced alphabets; comment variants) is executed on the real ZipWriter twice (finish and drop) and read back through the real ZipArchive; every observable the statement names is compared with the program. Exhaustive inside those bounds; says nothing about contents or names outside the alphabets.',
+    'Trusted: flate2/bzip2/zstd codecs; the harness crc32; the enumeration code. Entry counts near 65535 are covered by C08.')
